@@ -12,6 +12,7 @@ ATTACH = {
     "src/analysis.rs": "analysis.rs",
     "src/bit_machine/frame.rs": "frame.rs",
     "src/bit_encoding/bitwriter.rs": "bitwriter.rs",
+    "src/bit_encoding/encode.rs": "encode.rs",
 }
 
 
